@@ -4,7 +4,9 @@ package remote
 // queue) run the queue on top of the REAL remote target with a mock resolver.
 
 import (
+	"context"
 	"crypto/tls"
+	"net"
 
 	"github.com/foxcpp/go-mockdns"
 	"github.com/foxcpp/maddy/framework/log"
@@ -31,4 +33,17 @@ func VerifNewTarget(zones map[string]mockdns.Zone, port string) *Target {
 			StaleKeyLifetimeSec: 60 * 5,
 		}),
 	}
+}
+
+// VerifSetPort sets the package-level port every MX is contacted on.
+func VerifSetPort(port string) { smtpPort = port }
+
+// VerifNewTargetDial is VerifNewTarget with the dial function wrapped (the C01 hop harness uses
+// it to make a silent next hop look like a command time-out without waiting for one).  The port
+// is the one set with VerifSetPort, so that targets can be used side by side.
+func VerifNewTargetDial(zones map[string]mockdns.Zone,
+	wrap func(func(ctx context.Context, network, addr string) (net.Conn, error)) func(ctx context.Context, network, addr string) (net.Conn, error)) *Target {
+	t := VerifNewTarget(zones, smtpPort)
+	t.dialer = wrap(t.dialer)
+	return t
 }
